@@ -300,7 +300,8 @@ PROPS = {
     "C09": {
         "inv": ["BaseWorkflow.__check_ready", "BaseWorkflow.__check_working", "BaseWorkflow.__check_finished",
                 "BaseProject.initialize", "BaseWorkflow.initialize", "BaseOrganization.initialize", "BaseProduct.initialize",
-                "BaseTask.initialize", "BaseWorker.initialize", "BaseFacility.initialize", "BaseComponent.initialize"],
+                "BaseTask.initialize", "BaseWorker.initialize", "BaseFacility.initialize", "BaseComponent.initialize",
+                "BaseTeam.initialize", "BaseWorkplace.initialize"],
         "static": COMMON_STATIC + ["c09_identity_scan", "c09_set_order_unobservable", "c09_mutable_defaults", "c09_reset_fields"],
         "level_text": "(a) order independence: the three phases that iterate over internal task sets are verified with loops cut at "
                       "invariants over an ARBITRARY enumeration of the set; __check_ready and __check_working are proved to yield task "
